@@ -1,11 +1,23 @@
 (* C01, Each ('&'): one level of the PEG equivalence.  For EVERY semantics `rec` of the `_parse` calls and every reading
    `prec` of the operands: if each operand obeys its reading (success/failure, end position, token list, divergence,
    fuel), then an Each node without parse actions / results name / ignorables whose required operands cannot match the
-   empty string (`each_opt2 = []`) obeys the reading `peg_each` of Model/PegEach.v. *)
+   empty string (`each_opt2 = []`) obeys the reading `peg_each` of Model/Peg.v.
+   Used by Proofs/PegEquiv.v for the Each case of the equivalence. *)
 From Coq Require Import List ZArith NArith Bool Arith Lia.
-From PP Require Import Model.Str Model.Results Model.Prog Model.Core Model.Peg Model.PegEach.
-From PP Require Import Proofs.PegEquiv Proofs.EachFacts.
+From PP Require Import Model.Str Model.Results Model.Prog Model.Core Model.Peg.
+From PP Require Import Proofs.EachFacts.
 Import ListNotations.
+
+Lemma each_toks_fold_setname (items : list (str * tok * Z)) : forall r,
+  toks (fold_left (fun acc kvp => match kvp with (k, v, p) => pr_setname acc k v p end) items r) = toks r.
+Proof. induction items as [|[[k v] p] items IH]; intros r; simpl; [reflexivity|]. rewrite IH. reflexivity. Qed.
+Lemma each_as_list_iadd a b : pr_as_list (pr_iadd a b) = pr_as_list a ++ pr_as_list b.
+Proof.
+  unfold pr_as_list. rewrite <- map_app. f_equal.
+  unfold pr_iadd. destruct (negb (pr_bool b)) eqn:E.
+  - unfold pr_bool in E. destruct (toks b); [rewrite app_nil_r; reflexivity|]. simpl in E. discriminate.
+  - simpl. rewrite each_toks_fold_setname. reflexivity.
+Qed.
 
 Section EachPeg.
 Variable G : env.
@@ -94,14 +106,14 @@ Proof.
   inversion Hm as [|? ? Hc Hr]; subst. unfold call. cbn [run].
   pose proof (Hrec c Hc loc d) as H1.
   destruct (rec (mkargs c s loc d true)) as [[l r|x|]|]; cbn [proj] in H1.
-  - injection H1 as H1. rewrite <- H1. rewrite <- as_list_iadd. apply IH. exact Hr.
+  - injection H1 as H1. rewrite <- H1. rewrite <- each_as_list_iadd. apply IH. exact Hr.
   - destruct (is_pe (xk x)) eqn:E; [|discriminate]. injection H1 as H1. rewrite <- H1. apply K_fail_pe. exact E.
   - injection H1 as H1. rewrite <- H1. reflexivity.
   - injection H1 as H1. rewrite <- H1. reflexivity.
 Qed.
 
 Lemma each_impl_ok : each_opt2 (each_zip es info) = [] ->
-  proj (run rec (each_impl K es info s L d)) = Some (peg_each prec es (length s) info L).
+  proj (run rec (each_impl K es info s L d)) = Some (peg_each s prec es info L).
 Proof.
   intros Hnull.
   destruct (each_groups_P Q Q_rep Q_opt es info Hes) as (H1 & H2 & H3 & H4 & H5).
@@ -119,7 +131,7 @@ End Level.
 (* the whole `_parse` call, with or without pre-parse *)
 Theorem each_reading : each_opt2 (each_zip es info) = [] -> forall loc0 d pre,
   proj (run rec (step G (mkargs e s loc0 d pre)))
-  = Some (peg_each prec es (length s) info (if pre then eff s e loc0 else loc0)).
+  = Some (peg_each s prec es info (if pre then eff s e loc0 else loc0)).
 Proof.
   intros Hnull loc0 d pre. unfold step. cbn [a_e a_s a_do a_pre a_loc mkargs attrs_of]. unfold eff. cbn [attrs_of].
   destruct pre; cbn [andb]; [|apply each_impl_ok; exact Hnull].
@@ -134,32 +146,3 @@ Proof.
   cbn [impl]. apply each_impl_ok. exact Hnull.
 Qed.
 End EachPeg.
-
-(* the corollary for operands of the proved class `in_class` (Model/Peg.v), with the real recursive parser and the
-   reference reading `peg` for the operands, at every fuel *)
-Lemma in_class_rep_operand G a i z b ne : in_class G (Rep a i z b ne) = true ->
-  in_class G (snd (rep_operand (Rep a i z b ne) b)) = true.
-Proof.
-  intros H. simpl in H. destruct ne; [discriminate H|].
-  apply andb_prop in H as [H Hb]. apply andb_prop in H as [Hp _].
-  unfold rep_operand. cbn [attrs_of]. unfold plain_attrs in Hp.
-  destruct (acts a); [|discriminate]. destruct (rsname a); [discriminate|]. exact Hb.
-Qed.
-
-Lemma in_class_opt_body G a i dflt b : in_class G (Enh a i (EOpt dflt) b) = true -> in_class G b = true.
-Proof. intros H. simpl in H. apply andb_prop in H as [H _]. apply andb_prop in H as [_ H]. exact H. Qed.
-
-Theorem each_reading_in_class : forall (G : env) (s : str), env_in_class G = true ->
-  forall f a info es, plain_attrs a = true -> forallb (in_class G) es = true ->
-  each_opt2 (each_zip es info) = [] ->
-  forall loc0 d pre,
-  proj (parse (step G) (S f) (mkargs (Nary a [] (NEach info) es) s loc0 d pre))
-  = Some (peg_each (peg G s f) es (length s) info (if pre then eff s (Nary a [] (NEach info) es) loc0 else loc0)).
-Proof.
-  intros G s HG f a info es Hp Hes Hnull loc0 d pre. cbn [parse].
-  apply (each_reading G s (parse (step G) f) (peg G s f) (fun c => in_class G c = true)); try assumption.
-  - intros c Hc loc d0. exact (proj1 (peg_equiv G s HG f c Hc loc d0)).
-  - intros a0 i z b ne. apply in_class_rep_operand.
-  - intros a0 i dflt b. apply in_class_opt_body.
-  - apply Forall_forall. rewrite forallb_forall in Hes. exact Hes.
-Qed.
